@@ -272,6 +272,13 @@ pub fn run(rec: &mut Rec, rng: &mut Rng, thorough: bool) {
                 }
                 rec.nontrivial_op();
                 rec.op(&op, &hx(&out));
+                // … and with a body attached: the status on the wire is still the status the response was built with
+                let spec_b = crate::conn::RespSpec { v11: vi == 1, code: expect_codes[i] as u16, ops: vec![crate::conn::BOp::Body(b"x".to_vec())] };
+                let out_b = crate::suites::response::serialize(&spec_b);
+                if !out_b.starts_with(want.as_bytes()) {
+                    rec.oracle_fail("C16", &format!("the status line of ({:?}, {:?}) with a body attached is {:?}, expected {:?}", v, s, String::from_utf8_lossy(&out_b[..out_b.len().min(20)]), want), &[format!("resp {}", spec_b.proto())]);
+                }
+                rec.op(&format!("resp {}", spec_b.proto()), &hx(&out_b));
             }
         }
     }
